@@ -2,7 +2,7 @@
    Model/Client.v is the message-level model of ClientSession (tied to the code by the correspondence check).
    Transaction ids are matched as the code matches them: the f64 of the reply truncated to u32 (f64_to_u32). *)
 From Coq Require Import String.
-From RML Require Import Model.Base Model.Amf0 Model.Chunk Model.Messages Model.Float Model.SessionCommon Model.Client Proofs.ClientProofs.
+From RML Require Import Model.Base Model.Amf0 Model.Chunk Model.Messages Model.Float Model.SessionCommon Model.Client Proofs.ClientProofs Proofs.ClientRefusals.
 Local Open Scope list_scope.
 Local Open Scope N_scope.
 
@@ -117,6 +117,29 @@ Print Assumptions C10_unknown_result.
 Print Assumptions C10_unknown_error.
 Print Assumptions C10_connect_result.
 Print Assumptions C10_connect_error.
+(* an answer that is refused changes nothing but the consumed transaction: no play / publish state is entered, no stream becomes
+   active, nothing is sent (the serializer is untouched) *)
+Theorem C10_create_stream_result_without_number : forall c tr obj args clock p,
+  lookup (f64_to_u32 tr) (cl_trs c) = Some (TCreateStream p) -> no_stream_number args ->
+  exists c', ch_result c tr obj args clock = (c', CErr CNoStreamNumber) /\
+    cl_state c' = cl_state c /\ cl_stream c' = cl_stream c /\ cl_app c' = cl_app c /\ cl_ser c' = cl_ser c /\
+    cl_de c' = cl_de c /\ cl_ack c' = cl_ack c /\ cl_next_tr c' = cl_next_tr c /\
+    lookup (f64_to_u32 tr) (cl_trs c') = None.
+Proof. exact create_stream_result_without_number. Qed.
+
+Theorem C10_create_stream_error_refused : forall c tr obj args p,
+  lookup (f64_to_u32 tr) (cl_trs c) = Some (TCreateStream p) ->
+  exists c', ch_error c tr obj args = (c', CErr CCreateStreamFailed) /\
+    cl_state c' = cl_state c /\ cl_stream c' = cl_stream c /\ cl_app c' = cl_app c /\ cl_ser c' = cl_ser c /\
+    lookup (f64_to_u32 tr) (cl_trs c') = None.
+Proof. exact create_stream_error_refused. Qed.
+
+Example C10_no_stream_number_examples :
+  no_stream_number [] /\ no_stream_number [VNull; VNumber 4607182418800017408] /\ no_stream_number [VString (str "1")].
+Proof. exact no_stream_number_examples. Qed.
+
+Print Assumptions C10_create_stream_result_without_number.
+Print Assumptions C10_create_stream_error_refused.
 Print Assumptions C10_create_stream_result.
 Print Assumptions C10_play_start.
 Print Assumptions C10_publish_start.
